@@ -50,7 +50,7 @@ pub struct Naming {
     next_unknown: S,
 }
 
-pub const NAMING_KINDS: u32 = 8;
+pub const NAMING_KINDS: u32 = 9;
 pub const UNKNOWN_BASE: S = 500_000;
 
 impl Naming {
@@ -95,6 +95,9 @@ impl Naming {
                     Slot::numeric(s + 1000)
                 }
             }
+            // names of the crate's own fresh-slot form, created lazily: each one is spelled for the
+            // first time right before the insertion that uses it, far above the fresh counter
+            8 => Slot::named(&format!("f{}", 1000 + s * 53)),
             k => panic!("unknown naming {k}"),
         }
     }
